@@ -584,6 +584,11 @@ class Model:
                 r.watch_absent = None
         if depfail or p.fails(n) or p.hfails(n):
             r.failed = True
+            if not depfail and t.get('scribble') and r.exists and not r.phony:
+                # the failing script appended to the existing target file directly: redo records the new state of the file with the
+                # failure, and a file of a target that changed is a changed target (also for a checksummed one whose next successful
+                # build arrives at the old checksum again: its dependents never saw the mess, but they are rebuilt)
+                r.outver += 1
             if r.removed_mark and r.stamped and not getattr(r, 'removed_bumped', False):
                 # a build attempt that fails while the hand-removed file is still missing records "missing" as the target's state:
                 # for redo the target has changed (whatever checksum a later successful build arrives at)
